@@ -9,9 +9,9 @@ Directives (each starts a line, leading blanks allowed):
         copy a whole file (D6: inner attributes dropped)
   //@fn <selector> [nopub] [drop=debug,trace]
   //@ret <name>                       name the return value  (-> T   becomes   -> (name: T))
-  //@attrs / //@spec / //@enter / //@loop N / //@before N `toks` / //@after N `toks`
+  //@attrs / //@spec / //@enter / //@loop N / //@inloop N / //@afterloop N / //@before N `toks` / //@after N `toks`
         the following template lines (until the next //@ directive) are ghost text inserted
-        before the fn / before the body's `{` / before the N-th loop body's `{` /
+        before the fn / before the body's `{` / before the N-th loop body's `{` / first thing inside the N-th loop body / right behind the N-th loop /
         before|after the N-th occurrence of the token sequence in the body
   //@end
 
@@ -451,6 +451,13 @@ def expand(template_text, backend="verus"):
                         n = int(secargs[0])
                         if n >= len(lp): raise LostAnchor("loop #%d not found in %s" % (n, selector))
                         inserts_before.setdefault(lp[n], []).append("\n" + txt)
+                    elif section in ("inloop", "afterloop"):
+                        # first thing inside the N-th loop's body / right behind the N-th loop (no token anchor needed)
+                        lp = _loops(toks, o + 1, c)
+                        n = int(secargs[0])
+                        if n >= len(lp): raise LostAnchor("loop #%d not found in %s" % (n, selector))
+                        if section == "inloop": inserts_after.setdefault(lp[n], []).append("\n" + txt)
+                        else: inserts_after.setdefault(match_close(toks, lp[n]), []).append("\n" + txt)
                     elif section in ("before", "after"):
                         m = re.match(r"^\s*(\d+)\s+`(.*)`\s*$", " ".join(secargs))
                         if not m: raise TemplateError("bad anchor: " + " ".join(secargs))
@@ -466,7 +473,7 @@ def expand(template_text, backend="verus"):
                         flush()
                         if p2[0] == "end": i += 1; break
                         if p2[0] == "ret": ret_name = p2[1]; section = None
-                        elif p2[0] in ("attrs", "spec", "enter", "loop", "before", "after"):
+                        elif p2[0] in ("attrs", "spec", "enter", "loop", "inloop", "afterloop", "before", "after"):
                             section = p2[0]; secargs = s2[3 + len(p2[0]):].strip().split(" ")
                         else:
                             raise TemplateError("unknown directive in fn block: " + s2)
